@@ -416,6 +416,12 @@ func checkC19(c *Case, st *Stats) *Failure {
 				continue
 			}
 			e := *op.ErrOf
+			if !tr.Ops[e].CanV {
+				// an error that carries nothing to show leaves the graph as it is
+				l["visualize-with-unvisualizable-error"] = true
+				setFail(checkPlainViz(vg, m))
+				continue
+			}
 			ii := invokeInfo[e]
 			if ii == nil {
 				continue
